@@ -572,4 +572,29 @@ def diffEnvFixed (old : Option EnvRec) (new : EnvRec) : Decision :=
     | .ok true => .rerun "environment changed"
     | .ok false => .rerun "changed"
 
+/-! ## the reason `diffEnv` reports -/
+
+def joinWith (sep : String) : List String → String
+  | [] => ""
+  | [a] => a
+  | a :: rest => a ++ sep ++ joinWith sep rest
+
+/-- the `switch len(reasons)` at the end of `diffEnv`, as repaired (D28): when the environments differ but in no part
+listed in `functionEnvKeys` (a record of another version, a damaged record) the reason is generic -/
+def joinReason : List String → String
+  | [] => "environment changed"
+  | [a] => a ++ " changed"
+  | [a, b] => a ++ " and " ++ b ++ " changed"
+  | rs => joinWith ", " rs.dropLast ++ ", and " ++ rs.getLast! ++ " changed"
+
+/-- the same switch before the repair: no case for the empty list, and `reasons[:len(reasons)-1]` with
+`len(reasons) = 0` is a Go runtime panic ("slice bounds out of range [:-1]") on a runner goroutine -/
+def joinReasonOld : List String → Option String
+  | [] => none
+  | rs => some (joinReason rs)
+
+/-- the parts named for a diff whose top-level keys are `diffKeys`: `for _, k := range functionEnvKeys { if md.Has(k) … }` -/
+def reasonFor (diffKeys : List String) : String := joinReason (envKeys.filter (diffKeys.contains ·))
+def reasonForOld (diffKeys : List String) : Option String := joinReasonOld (envKeys.filter (diffKeys.contains ·))
+
 end Dawn.Env
